@@ -56,6 +56,17 @@ def moved_lookup(exceptions, key, used):
 def _loose(sk):
     """(rule, crate, 'unwrap|F(args)') -> (rule, crate, 'unwrap|F(*)') for unwrap/expect of a call result; None otherwise"""
     parts = sk[2].split("|", 1)
+    if len(parts) == 2 and parts[0] == "Index::index" and "[" in parts[1]:
+        # indexing of a field: `<owner>.field[index]` with the owner spelled differently (a method's self instead of the caller's path to the same struct)
+        ms = list(re.finditer(r"\.[A-Za-z_]\w*\[", parts[1]))
+        if ms:
+            return (sk[0], sk[1], "Index::index|*" + parts[1][ms[-1].start():])
+        return None
+    if sk[2].startswith("divisor="):
+        # the same expression over fields of a struct whose owner is spelled differently (self.dir / map[].1.dir)
+        d = sk[2]
+        loose = re.sub(r"(?<![\w\]\.@])(?:[A-Za-z_]\w*(?:\[\])?(?:@\w+)?(?:\.\d+)?\.)+(?=[A-Za-z_])", "*.", d)
+        return (sk[0], sk[1], loose) if loose != d else None
     if len(parts) != 2 or parts[0] not in ("unwrap", "expect"):
         return None
     m = re.match(r"^([A-Za-z_][\w:<>]*)\(", parts[1])
